@@ -60,6 +60,13 @@ def run(ctx):
     for i in cc.raw.get("inits", []):
         if i.get("field") and i.get("written"):
             src = member_of_param(i["e"], "p0:" + cc.params[0]["name"])
+            if i["field"] == pf and src is None:
+                # the owning pointer cannot be copied; a clone expression in the initialiser is judged by C14-R2 (clone) below;
+                # here: it reads no other member of the source
+                others = {member_of_param(x, "p0:" + cc.params[0]["name"]) for x in walk(i["e"]) if x.get("k") == "member"} - {None, pf}
+                if others:
+                    wrong.append("%s <- %s" % (i["field"].split("::")[-1], canon(i["e"])))
+                continue
             if src != i["field"]:
                 wrong.append("%s <- %s" % (i["field"].split("::")[-1], canon(i["e"])))
     missing = [f for f in fields if f not in inited]
@@ -89,7 +96,19 @@ def run(ctx):
         raise Broken("Packet move constructor / assignment operators not found")
     for f, what in [(mc[0], "move constructor")] + [(a, "move assignment" if a.params[0]["t"]["s"].endswith("&&") else "copy assignment") for a in asg]:
         uses = any(fb.resolve_call(c) is sw for c in f.calls())
-        res.check(uses, "C14-R1", "Packet:%s:via-swap" % what.replace(" ", "-"), f.loc, "%s is implemented by swap(Packet&, Packet&)" % what,
+        how = "%s is implemented by swap(Packet&, Packet&)" % what
+        if not uses and what == "copy assignment":
+            # *this = Packet(other): a temporary built by the copy constructor, taken over by the move assignment (which swaps)
+            mv = [a2 for a2 in asg if a2.params[0]["t"]["s"].endswith("&&")]
+            for c in f.calls():
+                if mv and fb.resolve_call(c) is mv[0] and c.get("args"):
+                    tmp = [x for x in walk(c["args"][0]) if x.get("k") == "construct" and fb.resolve_call(x) is cc]
+                    src_ok = any(strip_all_casts(x["args"][0]).get("decl") == f.params[0]["decl"] for x in tmp if x.get("args"))
+                    on_this = strip_all_casts(c.get("obj", {})).get("k") in ("this", "un")
+                    if tmp and src_ok and on_this and any(fb.resolve_call(y) is sw for y in mv[0].calls()):
+                        uses = True
+                        how = "copy assignment move-assigns a temporary copy of its argument (copy constructor, then swap in the move assignment)"
+        res.check(uses, "C14-R1", "Packet:%s:via-swap" % what.replace(" ", "-"), f.loc, how,
                   "%s does not go through swap(Packet&, Packet&)" % what)
     # payload classes
     for base in (PAY, TPAY):
@@ -129,13 +148,32 @@ def run(ctx):
                 if m:
                     getter_of[f.name] = m
     used = {0: set(), 1: set()}
+    # which operand(s) a declaration stands for: the two parameters, and parameters of local lambdas by the arguments they are called with
+    stands = {eq.params[0]["decl"]: {0}, eq.params[1]["decl"]: {1}}
+    lam_of = {}
+    for d, es in facts.local_defs(eq).items():
+        for e in es:
+            for x in walk(e):
+                if x.get("k") == "lambda":
+                    lam_of[d] = x
     for c in eq.calls():
-        nm = callee_name(c)
-        if nm in getter_of and "obj" in c:
+        if (c.get("callee") or {}).get("nm") == "operator()" and "obj" in c:
             o = strip_all_casts(c["obj"])
-            if o.get("k") == "ref":
-                idx = 0 if o["decl"] == eq.params[0]["decl"] else 1
-                used[idx].add(getter_of[nm])
+            lam = lam_of.get(o.get("decl"))
+            if lam is not None:
+                for prm, a in zip(lam.get("params", []), c.get("args", [])):
+                    a = strip_all_casts(a)
+                    if a.get("k") == "ref" and a.get("decl") in stands:
+                        stands.setdefault(prm["decl"], set()).update(stands[a["decl"]])
+    for c in eq.nodes():
+        if c.get("k") == "call" and callee_name(c) in getter_of and "obj" in c:
+            o = strip_all_casts(c["obj"])
+            for idx in stands.get(o.get("decl"), ()):
+                used[idx].add(getter_of[callee_name(c)])
+        elif c.get("k") == "member" and c.get("dk") == "field" and c.get("field") in fields:
+            b = strip_all_casts(c.get("base", {}))
+            for idx in stands.get(b.get("decl"), ()):
+                used[idx].add(c["field"])
     scalars = [f for f in fields if f != pf]
     for f in scalars:
         res.check(f in used[0] and f in used[1], "C14-R3", "operator==(Packet):%s" % f.split("::")[-1], eq.loc, "compared on both operands",
